@@ -1,5 +1,6 @@
 pub mod arena;
 pub mod crash;
+pub mod front;
 pub mod pool;
 pub mod proccap;
 pub mod procspec;
@@ -43,6 +44,7 @@ pub fn dispatch(ctx: &mut Ctx) {
         "sem" => sem::run(ctx),
         "gen" => sem::dump(ctx),
         "crash" => crash::run(ctx),
+        "front" => front::run(ctx),
         "reclaim" => reclaim::run(ctx),
         "prune" => prune::run(ctx),
         "strings" => strings::run(ctx),
